@@ -7,6 +7,7 @@ import (
 	"fmt"
 	"os"
 	"strings"
+	"sync"
 	"time"
 
 	"verif/harness/engines/chw"
@@ -58,13 +59,36 @@ func Main(c *run.Ctx) {
 	c.Assume("ClickHouse is the fake insert client (E-CHW): an INSERT 'completed without error' iff the scripted outcome is ok")
 	c.Assume("logical clock: a block's return tick is taken before Do returns to the service, a request's answer tick after the reply was read by the client")
 	cfgs := Configs(c.Quick())
-	RunConfigs(c, "C01", cfgs, c.Pick(40, 300), c.Pick(60, 500), false)
+	RunConfigs(c, "C01", cfgs, c.Pick(60, 300), c.Pick(200, 500), false)
 }
 
 // RunConfigs is shared with C02.
 func RunConfigs(c *run.Ctx, prop string, cfgs []chw.WriterCfg, calm, faulty int, shape bool) {
 	raceBin := os.Getenv("VERIF_RACE_BIN")
+	// one child process per configuration, a few at a time (each child has its own writer, fake database and
+	// logical clock; nothing is shared between them)
+	var wg sync.WaitGroup
+	sem := make(chan struct{}, c.Pick(3, 5))
 	for i, wc := range cfgs {
+		i, wc := i, wc
+		wg.Add(1)
+		sem <- struct{}{}
+		go func() {
+			defer wg.Done()
+			defer func() { <-sem }()
+			runConfig(c, prop, raceBin, i, wc, calm, faulty, shape)
+		}()
+	}
+	wg.Wait()
+	for _, f := range []string{"requests acknowledged 2xx", "requests answered with an error", "failed block followed by a successful retry (request 2xx)", "retries exhausted (request >= 400)",
+		"request sent while an INSERT of its table was in flight", "two INSERTs in flight at once", "multi-chunk bodies",
+		"multi-portion body whose first portion's INSERTs failed for good while later ones succeeded"} {
+		c.Floor(f, 1, 0)
+	}
+}
+
+func runConfig(c *run.Ctx, prop, raceBin string, i int, wc chw.WriterCfg, calm, faulty int, shape bool) {
+	{
 		wl := chw.WorkCfg{Writer: wc, Stream: fmt.Sprintf("%s/cfg%d", prop, i), Clients: 8 + 8*(i%3), Calm: calm, Faulty: faulty,
 			FaultP: 0.25, SlowP: 0.1, Targeted: true, Refuse: i%3 == 0, BigEvery: 17, ShapeMix: shape}
 		spec := run.ChildSpec{Prop: prop, Name: "workload", Cfg: wl, Timeout: 15 * time.Minute}
@@ -90,11 +114,6 @@ func RunConfigs(c *run.Ctx, prop string, cfgs []chw.WriterCfg, calm, faulty int,
 				}
 			}
 		}
-	}
-	for _, f := range []string{"requests acknowledged 2xx", "requests answered with an error", "failed block followed by a successful retry (request 2xx)", "retries exhausted (request >= 400)",
-		"request sent while an INSERT of its table was in flight", "two INSERTs in flight at once", "multi-chunk bodies",
-		"multi-portion body whose first portion's INSERTs failed for good while later ones succeeded"} {
-		c.Floor(f, 1, 0)
 	}
 }
 
